@@ -38,7 +38,73 @@ def obligations(L, tier):
                         obs.append(dict(id=f"{T_} {op} |a|={la} |a'|={lap} |b|={lb}", fn=fs[0].index, op=op, order=order, la=la, lap=lap, lb=lb, share=False))
                     if lap > 0:
                         obs.append(dict(id=f"{T_} {op} |a|={la} a' shares b's Arc |b|={lap}", fn=fs[0].index, op=op, order=order, la=la, lap=lap, lb=lap, share=True))
+    # the shared re-layout helper itself, with longer lists than the operator obligations can afford
+    H = 5 if tier == "quick" else 6
+    for order in (1, 2):
+        for n in range(H + 1):
+            for k in range(H + 1):
+                if order == 2 and max(n, k) > H - 1:
+                    continue
+                obs.append(dict(id=f"{TY[order]} to_new_vars |self|={n} |target|={k}", kind="helper", order=order, n=n, k=k))
     return obs
+
+
+def helper_worker(ob):
+    P, S = get_world()
+    order = ob["order"]
+    T_ = TY[order]
+
+    def harness(m):
+        inputs = []
+        na = mk_names(m, "a", ob["n"])
+        a = mk_dual(m, S, "a", na, order, inputs=inputs)
+        nt = mk_names(m, "t", ob["k"])
+        arc = m.new_arc(SetV(nt))
+        r = m.call_text(f"<{T_} as Vars>::to_new_vars", [m.temp_ref(a), m.temp_ref(arc), NONE],
+                        [parse_type("&" + T_), parse_type("&Arc<IndexSet<String>>"), parse_type("Option<VarsRelationship>")], parse_type(T_))
+        chk = Check(m)
+        props = [("shape", shape_ok(S, r)), ("value kept", fr_eq(parts(S, r)["real"], parts(S, a)["real"])),
+                 ("the result carries exactly the target list", len(names_of(S, r)) == len(nt) and z3.And(*[iz(x) == iz(y.id) for x, y in zip(names_of(S, r), nt)]))]
+        tv = [x.id for x in nt]
+        for v in tv:
+            props.append((f"d/d{v} kept by name", fr_eq(coef1(S, r, v), coef1(S, a, v))))
+        if order == 2:
+            for v in tv:
+                for w in tv:
+                    props.append((f"d2/d{v}d{w} kept by name", fr_eq(coef2(S, r, v, w), coef2(S, a, v, w))))
+
+        def replay(model):
+            env = input_env(model, inputs)
+            ja = rec_json(inputs[0], env)
+            tgt = [int(mval(model, iz(x.id))) for x in nt]
+            sc = {"kind": "dual_to_new_vars", "ty": T_, "a": ja, "target": tgt}
+            out = {"scenario": sc, "mismatch": [], "reproduced": False, "native": {}}
+            for prof in ("dev", "release"):
+                o = native_run([sc], prof)[0]
+                out["native"][prof] = o
+                if o.get("panic"):
+                    out["mismatch"].append(f"{prof}: panic"); continue
+                if o["vars"] != [f"v{t}" for t in tgt]:
+                    out["mismatch"].append(f"{prof}: native vars {o['vars']} target {tgt}")
+                for t in tgt:
+                    if not close(obs_c1(o, f"v{t}"), nc1(ja, t)):
+                        out["mismatch"].append(f"{prof}: d/dv{t} native={obs_c1(o, f'v{t}')} input={nc1(ja, t)}")
+                if order == 2:
+                    for t in tgt:
+                        for u in tgt:
+                            if not close(obs_c2(o, f"v{t}", f"v{u}"), nc2(ja, t, u)):
+                                out["mismatch"].append(f"{prof}: d2/dv{t}dv{u} native={obs_c2(o, f'v{t}', f'v{u}')} input={nc2(ja, t, u)}")
+            out["reproduced"] = any("native" in x or "panic" in x for x in out["mismatch"])
+            return out
+        zs = [p for d, p in props if is_sym(p)]
+        pyfail = [d for d, p in props if p is False]
+        if pyfail:
+            chk.add("; ".join(pyfail), False, replay)
+        else:
+            chk.add("all clauses (" + "; ".join(d for d, _ in props)[:300] + ")", z3.And(*zs) if zs else True, replay)
+        return chk
+
+    return explore_ob(harness, max_paths=20000, max_seconds=1500)
 
 
 def same_by_name(S, x, y, names, order):
@@ -55,6 +121,8 @@ def same_by_name(S, x, y, names, order):
 def worker(ob):
     if ob.get("bad"):
         return {"undecided": [ob["id"]]}
+    if ob.get("kind") == "helper":
+        return helper_worker(ob)
     P, S = get_world()
     fn = P.functions[ob["fn"]]
     order = ob["order"]
@@ -79,6 +147,8 @@ def worker(ob):
         m.assume(same_by_name(S, a, ap, [x.id for x in na] + [x.id for x in nap], order))
         if ob["op"] == "rem":
             m.assume(parts(S, b)["real"].z() != 0)
+        import mirsym.sym as _sym
+        del _sym.TAINTED_EQ[:]
         r1 = m.run_function(fn, [m.temp_ref(a), m.temp_ref(b)], {})
         r2 = m.run_function(fn, [m.temp_ref(ap), m.temp_ref(b)], {})
         chk = Check(m)
@@ -90,6 +160,7 @@ def worker(ob):
             r4 = m.run_function(eqfn, [m.temp_ref(a), m.temp_ref(ap)], {})
             props.append(("a' == a", b_eq(r3, True)))
             props.append(("a == a'", b_eq(r4, True)))
+            tainted_eq = len(_sym.TAINTED_EQ)
         else:
             props.append(("shape", shape_ok(S, r1) and shape_ok(S, r2)))
             props.append(("vars(op(a,b)) = union", union_exact(S, r1, [[x.id for x in na], [x.id for x in nb]])))
@@ -155,6 +226,27 @@ def worker(ob):
             chk.add("; ".join(pyfail), False, replay)
         else:
             chk.add("all clauses (" + "; ".join(d for d, _ in props) + ")", z3.And(*zs) if zs else True, replay)
+        if ob["op"] == "eq":
+            def pool_replay(model):
+                # the same number in two layouts whose derivative sums round differently when taken in listing order
+                out = {"scenario": None, "mismatch": [], "native": {}, "reproduced": False}
+                for vals in ((0.1, 0.2, 0.3), (0.1, 0.7, 1e16), (1e-3, 3.3, 0.7)):
+                    for perm in ((2, 1, 0), (1, 2, 0), (0, 2, 1)):
+                        ja = {"real": 1.5, "vars": [0, 1, 2], "dual": list(vals)}
+                        jb = {"real": 1.5, "vars": [perm[0], perm[1], perm[2]], "dual": [vals[perm[0]], vals[perm[1]], vals[perm[2]]]}
+                        if order == 2:
+                            ja["dual2"] = [0.0] * 9; jb["dual2"] = [0.0] * 9
+                        sc = {"kind": "dual_eq", "ty": T_, "a": ja, "b": jb}
+                        for prof in ("dev", "release"):
+                            o = native_run([sc], prof)[0]
+                            if o.get("eq") is False:
+                                out["mismatch"].append(f"{prof}: native a == a' is false for the same number listed as {ja['vars']} {ja['dual']} and {jb['vars']} {jb['dual']}")
+                                out["scenario"] = sc; out["native"][prof] = o
+                        if out["mismatch"]:
+                            out["reproduced"] = True
+                            return out
+                return out
+            chk.add_soft("== is decided on stored values only (no comparison of re-associated floating-point sums)", tainted_eq == 0, pool_replay)
         return chk
 
     return explore_ob(harness, max_paths=6000, max_seconds=1500)
@@ -219,7 +311,8 @@ def run(tier, seed):
         undecided.append(f"panic leaves: {tot['panics'][:3]}")
     ev.cov(engine="mirsym + z3 " + z3.get_version_string(), functions_encoded=sorted(tot["fns"]), library_models=sorted(tot["models"]),
            bounds={"list_lengths": f"|a|,|a'|,|b| in 0..{L} (Dual), 0..{min(L,2)} (Dual2)", "names": "symbolic atoms; every permutation / subset / superset / overlap / disjoint layout is a solver choice",
-                   "arc": "a' separate, or sharing b's variable list", "operators": "+ - * % (the &T op &T bodies all other variants delegate to; the variants themselves are C01/C02/C19 obligations) and ==",
+                   "arc": "a' separate, or sharing b's variable list",
+                   "helper": f"Vars::to_new_vars (the re-layout every operator and == goes through) with |self|,|target| in 0..{5 if tier == 'quick' else 6} (Dual) / one less (Dual2), state=None, all name coincidences", "operators": "+ - * % (the &T op &T bodies all other variants delegate to; the variants themselves are C01/C02/C19 obligations) and ==",
                    "outside": f"lists longer than {L}; '/' (C01/C02)"},
            obligations=len(obs), discharged=sum(1 for r in results if r and not r.get("error") and not r.get("fails") and not r.get("unknown") and not r.get("undecided")),
            evaluations=tot["checks"], distinct_nontrivial=tot["paths"],
